@@ -924,9 +924,17 @@ fn remove_part(length: usize, string: &mut String) -> Result<(), AstrolabeError>
             "String to parse is too short. Please check your format string.".to_string(),
         ))
     } else {
-        string.replace_range(0..length, "");
+        string.replace_range(0..char_boundary(string, length), "");
         Ok(())
     }
+}
+
+/// Byte index directly after the first `chars` characters (the string has to contain at least that many)
+fn char_boundary(string: &str, chars: usize) -> usize {
+    string
+        .char_indices()
+        .nth(chars)
+        .map_or(string.len(), |(index, _)| index)
 }
 
 fn pick_part<T: std::str::FromStr>(
@@ -939,14 +947,15 @@ fn pick_part<T: std::str::FromStr>(
             "String to parse is too short. Please check your format string.".to_string(),
         ))
     } else {
-        let part = string[0..length].parse::<T>().map_err(|_| {
+        let end = char_boundary(string, length);
+        let part = string[0..end].parse::<T>().map_err(|_| {
             create_invalid_format(format!(
                 "Failed parsing {} from given string. Value is '{}'.",
                 part_name,
-                &string[0..length]
+                &string[0..end]
             ))
         })?;
-        string.replace_range(0..length, "");
+        string.replace_range(0..end, "");
         Ok(part)
     }
 }
